@@ -172,6 +172,7 @@ def run(chk):
     p = core.load_program("all")
     chk.configs = ["all-features"]
     chk.explanation = __doc__
+    N_reg = normal.Normalizer(p, summary.Summaries(p))
     reg = ceremony(p, "register", adt=CLIENT)
     mc = ceremony(p, "make_credential")
     if not chk.require("R1 client data", "R1|bodies", reg is not None and mc is not None, CLIENT, "Client::register / Authenticator::make_credential not found"):
@@ -240,7 +241,19 @@ def run(chk):
     der = find(pkd, lambda x: is_call(x, "public_key_der_from_cose_key"))
     key_src = der[2][0] if der else None
     ok4 = key_src is not None and key_src[0] == "field" and key_src[2] == "key" and has(key_src, lambda x: x == resp_ad)
-    okalg = key_src is not None and has(alg, lambda x: x == ("field", key_src, "alg"))
+    # every value the reported algorithm can take is read from the attested key's own `alg` (a selection on key.alg is not
+    # enough: the selected values count)
+    okalg = key_src is not None
+    if okalg:
+        is_resp = lambda x: isinstance(x, tuple) and len(x) == 4 and x[0] == "await" and names.is_(x[1], "Authenticator::make_credential")
+        opaque = lambda t: summary.replace_where(t, is_resp, ("authenticator-response",))
+        att_alg = lambda x: isinstance(x, tuple) and len(x) == 3 and x[0] == "field" and x[2] == "alg" and isinstance(x[1], tuple) and len(x[1]) == 3 and x[1][0] == "field" and x[1][2] == "key" \
+            and has(x[1][1], lambda y: isinstance(y, tuple) and len(y) == 3 and y[0] == "field" and y[2] == "attested_credential_data") and has(x[1][1], lambda y: y == ("authenticator-response",))
+        vals = [opaque(v) for cs, v in normal.cases_deep(N_reg.norm(alg))]
+        dead = lambda v: v == ("never",) or has(v, lambda x: isinstance(x, tuple) and len(x) == 4 and x[0] == "call" and ("unreachable" in x[1] or "panic" in x[1]))
+        live = [v for v in vals if not dead(v)]
+        okalg = bool(live) and all(has(v, att_alg) for v in live) \
+            and not any(has(v, lambda x: isinstance(x, tuple) and len(x) == 3 and x[0] == "field" and x[2] in ("pub_key_cred_params", "public_key") and has(x, lambda y: y == ("upvar", 2))) for v in live)
     chk.ob("R4 keys", "R4|Client::register|der-from-attested-key", bool(ok4), site, "publicKey = %s" % flow.term_str(pkd)[:200])
     chk.ob("R4 keys", "R4|Client::register|alg-from-attested-key", bool(okalg), site, "publicKeyAlgorithm = %s" % flow.term_str(alg)[:200])
     # R6 (client side): default algorithms
